@@ -14,7 +14,9 @@ RndBytes(i, n) == SubSeq(Sha256Hash(BE32(Seed) \o BE32(i)) \o Sha256Hash(BE32(Se
 EnvNat(name) == atoi(IOEnv[name])
 
 \* one JSON line per call record (G direction); returns TRUE
-EmitRecord(r) == CSVWrite("%1$s", << ToJson(r) >>, IOEnv.GEN_OUT)
+\* (AppendLine is overridden by tlc2.module.Verif with a synchronized append: TLC's workers emit concurrently)
+AppendLine(line, file) == CSVWrite("%1$s", << line >>, file)
+EmitRecord(r) == AppendLine(ToJson(r), IOEnv.GEN_OUT)
 \* events recorded from the implementation (T direction)
 LoadTrace == ndJsonDeserialize(IOEnv.TRACE)
 =============================================================================
